@@ -157,3 +157,12 @@ try:
         pass
 except (ImportError, NameError):
     pass
+
+
+def linger_ret(flag_path=None, linger=8.0):
+    """the target returns at once but leaves a non-daemon thread behind: the child reports its result and closes
+    its pipes, while the process lives on (interpreter shutdown joins the thread) for `linger` seconds"""
+    import threading
+    threading.Thread(target=time.sleep, args=(linger,), name='left-behind').start()
+    _mark(flag_path)
+    return 7
